@@ -945,18 +945,20 @@ class VTF:
                 _format_funcs.save(self.low_format, self._low_res._data, data, self._low_res.width, self._low_res.height)
             file.write(data)
 
-        depth_seq = self._depth_range()
+        # The sides present depend on the version being written, not the one this was created as.
+        depth_seq = self._depth_range(version)
 
         if version_minor >= 3:
             deferred.set_data('high_res', file.tell())
         for data_mipmap in reversed(range(self.mipmap_count)):
             for frame_ind in range(self.frame_count):
                 for depth_or_cube in depth_seq:
-                    frame = self._frames[
-                        frame_ind,
-                        depth_or_cube,
-                        data_mipmap,
-                    ]
+                    key = (frame_ind, depth_or_cube, data_mipmap)
+                    if depth_or_cube is CubeSide.SPHERE and key not in self._frames:
+                        # A cubemap created as 7.5+ has no sphere map, older versions need a blank one.
+                        frame = Frame(max(self.width >> data_mipmap, 1), max(self.height >> data_mipmap, 1))
+                    else:
+                        frame = self._frames[key]
                     frame.load()
                     data = bytearray(self.format.frame_size(frame.width, frame.height))
                     if frame._data is not None:
@@ -982,13 +984,16 @@ class VTF:
         for frame in self._frames.values():
             frame._fileinfo = None
 
-    def _depth_range(self) -> Sequence[Union[int, CubeSide]]:
+    def _depth_range(self, version: Optional[tuple[int, int]] = None) -> Sequence[Union[int, CubeSide]]:
         """Return the appropriate sequence for iterating over the _frames dict.
 
         Depending on the type of VTF, frames may either be per cubemap side, or per depth.
+        If a version is given (when saving as another version), that is used instead of our own.
         """
+        if version is None:
+            version = self.version
         if VTFFlags.ENVMAP in self.flags:
-            if self.version[1] >= 5:  # Spheremaps were removed in 7.5+
+            if version[1] >= 5:  # Spheremaps were removed in 7.5+
                 return CUBES
             else:
                 return CUBES_WITH_SPHERE
